@@ -81,8 +81,10 @@ PROPS = {
         lean_modules=["Gowarc.Props.C02", "Gowarc.Props.C02e2e"],
         audit_namespaces=["Gowarc.Props.C02"],
         n_quick=3000, n_thorough=40000,
-        required_theorems=["C02_added_digest", "C02_http_split", "C02_default_digest", "C02_validate_truthful", "C02_build_truthful", "checkDigest_post", "parseBlock_keepsCL"],
-        model_assumptions=["record ids come from the configured id function; uniqueness of uuid.New is an assumption (randomness), only well-formedness is checked", "see level_note"],
+        required_theorems=["C02_added_digest", "C02_http_split", "C02_default_digest", "C02_validate_truthful", "C02_build_truthful", "checkDigest_post", "parseBlock_keepsCL",
+                           "C02_validate_payload", "C02_http_payload", "checkDigest_has_other"],
+        model_assumptions=["record ids come from the configured id function; uniqueness of uuid.New is an assumption (randomness), only well-formedness is checked",
+                           "C02_validate_payload: after ValidateDigest (spec warn/fail, default repairs) the WARC-Payload-Digest field is the rendering of the digest of exactly the payload bytes (HTTP: the bytes after the protocol header, C02_http_payload) or a declared value that decodes to it", "see level_note"],
         design_ref="DESIGN.md section 5, C02",
         level_text="Model of Build compared with the implementation on seeded builder inputs x 81 policy combinations x repair flags x algorithms x encodings; the oracle recomputes Content-Length and digests "
                    "from the serialized bytes with crypto/* and re-runs every case with four other feeding manners and thresholds; theorems: C02_build_truthful (every record Build returns without error, under spec warn/fail with the default repair options, has Content-Length = decimal length of its block and a truthful WARC-Block-Digest, for every header, content, type and oracle verdict), C02_validate_truthful (the same postcondition for ValidateDigest on any block), the added digest is name:encode(H(alg, exactly the block / payload bytes)), "
